@@ -9,6 +9,7 @@ import (
 	"sync"
 	"sync/atomic"
 	"syscall"
+	"time"
 )
 
 // Enabled reports whether the hooks are compiled in.
@@ -20,6 +21,8 @@ var (
 	stepHandler  atomic.Pointer[handlerFunc]
 	yieldHandler atomic.Pointer[handlerFunc]
 	envOnce      sync.Once
+	gateDir      string
+	gateSeq      int64
 	killKind     string
 	killAt       int64
 	stepCount    sync.Map // kind -> *int64
@@ -58,6 +61,7 @@ func Step(kind string, path string) {
 		return
 	}
 	envOnce.Do(func() {
+		gateDir = os.Getenv("VERIF_STEP_GATE")
 		spec := os.Getenv("VERIF_KILL_AT")
 		if i := strings.LastIndex(spec, "#"); i > 0 {
 			n, err := strconv.ParseInt(spec[i+1:], 10, 64)
@@ -66,6 +70,9 @@ func Step(kind string, path string) {
 			}
 		}
 	})
+	if gateDir != "" {
+		gate(kind, path)
+	}
 	if killAt == 0 {
 		return
 	}
@@ -86,5 +93,45 @@ func Step(kind string, path string) {
 func Yield(kind string, path string) {
 	if h := yieldHandler.Load(); h != nil {
 		(*h)(kind, path)
+	}
+}
+
+// gate parks the calling goroutine of a process without an in-process handler (the detached command
+// runner) until the simulator that owns the directory VERIF_STEP_GATE releases it: the step is announced as
+// one line "<pid> <n> <kind> <path>" on the FIFO <dir>/req, and the release is one byte on the FIFO
+// <dir>/ack.<pid>.<n>.  A simulator that has gone away releases everybody after a minute.
+func gate(kind string, path string) {
+	n := atomic.AddInt64(&gateSeq, 1)
+	pid := os.Getpid()
+	ack := gateDir + "/ack." + strconv.Itoa(pid) + "." + strconv.FormatInt(n, 10)
+	if err := syscall.Mkfifo(ack, 0o600); err != nil {
+		return
+	}
+	defer os.Remove(ack)
+	req, err := os.OpenFile(gateDir+"/req", os.O_WRONLY|syscall.O_NONBLOCK, 0)
+	if err != nil {
+		return
+	}
+	_, err = req.WriteString(strconv.Itoa(pid) + " " + strconv.FormatInt(n, 10) + " " + kind + " " + path + "\n")
+	_ = req.Close()
+	if err != nil {
+		return
+	}
+	done := make(chan struct{})
+	go func() {
+		if f, err := os.OpenFile(ack, os.O_RDONLY, 0); err == nil {
+			b := make([]byte, 1)
+			_, _ = f.Read(b)
+			_ = f.Close()
+		}
+		close(done)
+	}()
+	select {
+	case <-done:
+	case <-time.After(time.Minute):
+		// unblock the reader goroutine, if it is still waiting for a writer
+		if f, err := os.OpenFile(ack, os.O_WRONLY|syscall.O_NONBLOCK, 0); err == nil {
+			_ = f.Close()
+		}
 	}
 }
